@@ -315,8 +315,64 @@ def cleanLoop (sg : Bool) : List Name → St → Out St
     | .trap t => .trap t
     | .oof => .oof
 
+/-! ### the scan flag as loop-carried state
+
+  In the C source the digit scan reports through a flag variable (`allDigits`) that lives OUTSIDE the match loop.
+  Whether the loop body re-initialises it for every directory entry is regenerated (`Gen.cleanScanFlagCarried`):
+  `none` = it is set to `true` before the scan of every entry, `some v` = it is only initialised (to `v`) at its
+  declaration and carried from one entry to the next.  `cleanLoopF` is the match loop as a fold over the listing with
+  that flag as state; `cleanLoop` above is the stateless reading, and `Lemmas.cleanLoopF_eq` (re-checked against the
+  regenerated fact) says they agree — only then is the set of removed names independent of the order of the listing. -/
+
+/-- the flag when the tests of a directory entry start -/
+def entryFlag (carried : Bool) : Bool :=
+  match cleanScanFlagCarried with
+  | none => true
+  | some _ => carried
+
+/-- the flag before the first entry -/
+def flagInit : Bool := cleanScanFlagCarried.getD true
+
+/-- one rejecting test with the flag threaded through: `(continue?, flag afterwards)`.  The scan loop only ever CLEARS
+    the flag (`if (cond(path[i])) { flag = false; break; }`), the test after it is `if (!flag) continue;`. -/
+def evalStepF (sg : Bool) (name : Name) (flag : Bool) : CleanStep → Out (Bool × Bool)
+  | .rejectIfAnyInRange start op minus c =>
+    match scan sg name c op ((name.length + sizeMod - minus) % sizeMod) (name.length + 2) start with
+    | .val fired => .val (!(flag && !fired), flag && !fired)
+    | .ub k => .ub k
+    | .trap t => .trap t
+    | .oof => .oof
+  | s =>
+    match evalStep sg name s with
+    | .val b => .val (b, flag)
+    | .ub k => .ub k
+    | .trap t => .trap t
+    | .oof => .oof
+
+/-- the tests of one entry: `(remove?, flag afterwards)` -/
+def evalStepsF (sg : Bool) (name : Name) : List CleanStep → Bool → Out (Bool × Bool)
+  | [], f => .val (true, f)
+  | s :: rest, f =>
+    match evalStepF sg name f s with
+    | .val (true, f') => .val (false, f')
+    | .val (false, f') => evalStepsF sg name rest f'
+    | .ub k => .ub k
+    | .trap t => .trap t
+    | .oof => .oof
+
+/-- the match loop as a fold over the names `glob` returned, the scan flag being the carried state -/
+def cleanLoopF (sg : Bool) : List Name → Bool → St → Out St
+  | [], _, st => .val st
+  | n :: rest, f, st =>
+    match evalStepsF sg n cleanSteps (entryFlag f) with
+    | .val (true, f') => cleanLoopF sg rest f' (removeN st n)
+    | .val (false, f') => cleanLoopF sg rest f' st
+    | .ub k => .ub k
+    | .trap t => .trap t
+    | .oof => .oof
+
 def cleanDir (w : World) (st : St) : Out St :=
-  cleanLoop w.charSigned ((w.listing st.inOut).filter (globMatch globPattern))
+  cleanLoopF w.charSigned ((w.listing st.inOut).filter (globMatch globPattern)) flagInit
     (st.emit (.glob st.inOut globPatternString))
 
 /-- implementation files of one prefix: `fopen` failure ends the process with `exit(1)` -/
